@@ -67,6 +67,8 @@ func (n *rnode) sx() hx.Sx {
 		return hx.L(hx.I(2), pathSx(n.path), hx.S(n.format), hx.I(n.cmp), hx.I(n.mode), hx.Z(n.a), hx.Z(n.shift))
 	case kType:
 		return hx.L(hx.I(3), pathSx(n.path), hx.Ss(n.types))
+	case kBad:
+		return hx.L(hx.I(kBad), hx.I(n.op))
 	default:
 		items := []hx.Sx{hx.I(n.kind)}
 		for _, o := range n.ops {
@@ -115,6 +117,8 @@ func nodeFromSx(s hx.Sx) *rnode {
 	case kType:
 		n.path = strsOf(it[1])
 		n.types = strsOf(it[2])
+	case kBad:
+		n.op = int(hx.Int(it[1]))
 	default:
 		for _, o := range it[1:] {
 			n.ops = append(n.ops, nodeFromSx(o))
@@ -151,45 +155,13 @@ func selector(p []string) string {
 
 // ---- real construction ------------------------------------------------------------------------
 
-func (n *rnode) toMap() map[string]any {
-	switch n.kind {
-	case kField:
-		vs := make([]any, len(n.vals))
-		for i, v := range n.vals {
-			if v != nil {
-				vs[i] = *v
-			}
-		}
-		return map[string]any{"op": fopNames[n.op], "field": selector(n.path), "case_sensitive": n.cs, "values": vs}
-	case kLen:
-		return map[string]any{"op": lenNames[n.op], "field": selector(n.path), "cmp_op": cmpNames[n.cmp], "value": int(n.value)}
-	case kTs:
-		m := map[string]any{"op": "ts_cmp", "field": selector(n.path), "cmp_op": cmpNames[n.cmp], "format": n.format,
-			"value_shift": time.Duration(n.shift).String()}
-		if n.mode == 1 {
-			m["value"] = "now"
-			m["update_interval"] = time.Duration(n.a).String()
-		} else {
-			m["value"] = time.Unix(0, n.a).UTC().Format(time.RFC3339Nano)
-		}
-		return m
-	case kType:
-		vs := make([]any, len(n.types))
-		for i, v := range n.types {
-			vs[i] = v
-		}
-		return map[string]any{"op": "check_type", "field": selector(n.path), "values": vs}
-	default:
-		ops := make([]any, len(n.ops))
-		for i, o := range n.ops {
-			ops[i] = o.toMap()
-		}
-		return map[string]any{"op": logNames[n.kind], "operands": ops}
-	}
-}
+// the full spelling: every key written out, values always a list
+func (n *rnode) toMap() map[string]any { return n.spell(false, false) }
 
 func (n *rnode) toNode() (doif.Node, error) {
 	switch n.kind {
+	case kBad:
+		return badCtor(n.op)
 	case kField:
 		vs := make([][]byte, len(n.vals))
 		for i, v := range n.vals {
@@ -204,10 +176,13 @@ func (n *rnode) toNode() (doif.Node, error) {
 		mode := "const"
 		var cv time.Time
 		interval := 10 * time.Second
-		if n.mode == 1 {
+		switch n.mode {
+		case 1:
 			mode = "now"
 			interval = time.Duration(n.a)
-		} else {
+		case 2:
+			cv = time.Now() // what ctor.go does for the value "file_d_start"
+		default:
 			cv = time.Unix(0, n.a)
 		}
 		return doif.NewTsCmpOpNode(selector(n.path), n.format, cmpNames[n.cmp], mode, cv, time.Duration(n.shift), interval)
